@@ -212,3 +212,102 @@ Theorem seed_c12_3_refuted :
 Proof.
   exists 10, seed3_history, 1. vm_compute. repeat split; discriminate.
 Qed.
+
+(* ------------------------------------------------------------------ *)
+(* Seeded change C12-4 (seeded/C12-4): scanAndRunTasks collects the due timers into a
+   buffer that is kept between ticks (tasks := tw.dueTasks[:0] ... tw.dueTasks = tasks),
+   and runTasks hands that slice to the goroutine that delivers it.  A later tick with due
+   timers overwrites the backing array under a batch that is still being delivered.
+   The delivery layer of Deliver.v with one shared backing array:
+   - [sbuf]: the array behind tw.dueTasks (its length is the capacity);
+   - a batch in flight is (private copy?, index of the blocked callback, length): a batch
+     reads its tasks from the shared array when it goes on, unless the array was
+     reallocated meanwhile (append beyond the capacity), in which case it keeps the old
+     one. *)
+From GZ Require Import C12.Api C12.Deliver.
+
+Record sb_batch := mkSB { sb_arr : option fired;  (* Some a: detached old array; None: the shared one *)
+                          sb_gate : Z;           (* the value whose gate the running callback waits on *)
+                          sb_next : nat; sb_len : nat }.
+
+Record sb_state := mkSBS
+  { sb_wheel : acstate; sb_buf : fired; sb_flight : list sb_batch; sb_released : list Z }.
+
+Definition sb_held (hold rel : list Z) (v : Z) : bool := zmem v hold && negb (zmem v rel).
+
+(* deliver elements j, j+1, ... < len of array a until one blocks *)
+Fixpoint sb_run (fuel : nat) (hold rel : list Z) (a : fired) (j len : nat) : fired * option nat :=
+  match fuel with
+  | O => ([], None)
+  | S fuel' =>
+    if Nat.ltb j len then
+      let x := nth j a (0, 0) in
+      if sb_held hold rel (snd x) then ([x], Some j)
+      else let '(d, r) := sb_run fuel' hold rel a (S j) len in (x :: d, r)
+    else ([], None)
+  end.
+
+(* append f to buf[:0]: in place while the capacity lasts, else a new array (doubling) *)
+Definition sb_write (buf f : fired) : fired * bool (* reallocated? *) :=
+  if Nat.leb (length f) (length buf)
+  then (f ++ skipn (length f) buf, false)
+  else (f ++ repeat (0, 0) (Nat.max (2 * length buf) (length f) - length f), true).
+
+Definition sb_step (hold : list Z) (s : sb_state) (o : gop) : sb_state * fired :=
+  match o with
+  | GCall a =>
+    let '(w', f, _) := acstep (sb_wheel s) a in
+    match a with
+    | ATick =>
+      (* the in-place part of the append damages the shared array even when it then grows *)
+      let damaged := firstn (length (sb_buf s)) f ++ skipn (length f) (sb_buf s) in
+      let '(buf', realloc) := sb_write (sb_buf s) f in
+      let flight := if realloc
+                    then map (fun b => match sb_arr b with
+                                       | None => mkSB (Some damaged) (sb_gate b) (sb_next b) (sb_len b)
+                                       | _ => b end) (sb_flight s)
+                    else sb_flight s in
+      let '(d, r) := sb_run (S (length f)) hold (sb_released s) buf' 0 (length f) in
+      (mkSBS w' buf' (flight ++ match r with Some j => [mkSB None (snd (nth j buf' (0, 0))) j (length f)] | None => [] end)
+             (sb_released s), d)
+    | _ => (mkSBS w' (sb_buf s) (sb_flight s) (sb_released s), f)   (* Move at once / Drain: not through the buffer *)
+    end
+  | GRelease v =>
+    let rel := v :: sb_released s in
+    let rs := map (fun b =>
+                let a := match sb_arr b with Some a => a | None => sb_buf s end in
+                if sb_gate b =? v
+                then let '(d, r) := sb_run (S (sb_len b)) hold rel a (S (sb_next b)) (sb_len b) in
+                     (d, match r with Some j => [mkSB (sb_arr b) (snd (nth j a (0, 0))) j (sb_len b)] | None => [] end)
+                else ([], [b])) (sb_flight s) in
+    (mkSBS (sb_wheel s) (sb_buf s) (flat_map snd rs) rel, concat (map fst rs))
+  end.
+
+Fixpoint sb_runs (hold : list Z) (s : sb_state) (ops : list gop) : list fired :=
+  match ops with
+  | [] => []
+  | o :: ops' => let '(s', d) := sb_step hold s o in d :: sb_runs hold s' ops'
+  end.
+
+(* a, b due at tick 1 (a's callback held open), c, d due at tick 2: b is never delivered
+   and d is delivered twice, although every gate has been opened at the end *)
+Definition seed4_history : list gop :=
+  [GCall (ASet (Some 1) 900 10); GCall (ASet (Some 2) 2 10); GCall (ASet (Some 3) 3 20);
+   GCall (ASet (Some 4) 4 20); GCall ATick; GCall ATick] ++ map GRelease [900].
+
+Theorem seed_c12_4_refuted :
+  exists n i hold ops,
+    let h := ops ++ map GRelease hold in
+    ~ Permutation (concat (sb_runs hold (mkSBS (acinit n i) [] [] []) h))
+                  (concat (gfired (asp_step i) (false, []) h)).
+Proof.
+  exists 8, 10, [900], (firstn 6 seed4_history). intros h H.
+  apply Permutation_sym in H. apply (Permutation_in (2, 2)) in H.
+  - vm_compute in H. repeat (destruct H as [H|H]; [discriminate H|]). exact H.
+  - vm_compute. right. left. reflexivity.
+Qed.
+
+Example seed4_lost_and_doubled :
+  sb_runs [900] (mkSBS (acinit 8 10) [] [] []) seed4_history =
+  [[]; []; []; []; [(1, 900)]; [(3, 3); (4, 4)]; [(4, 4)]].
+Proof. vm_compute. reflexivity. Qed.
